@@ -1,4 +1,5 @@
 import WmModel.Props.C05Reg
+import WmModel.Props.C04Exit
 import WmModel.Props.C05
 #print axioms Wm.GcSub.one_unsettled_inv
 #print axioms Wm.GcSub.unsettled_is_owned
@@ -12,3 +13,6 @@ import WmModel.Props.C05
 #print axioms Wm.GcReg.blocking_without_pending_writer_returns
 #print axioms Wm.GcReg.writer_unique
 #print axioms Wm.GcReg.blocking_order
+#print axioms Wm.GcSub.acked_exit_means_delivered_and_acked
+#print axioms Wm.GcSub.unacked_exit_means_closing
+#print axioms Wm.GcSub.sender_exits_once
